@@ -185,8 +185,19 @@ class C05:
     def make_plan(run_seed, tier):
         st = Streams(run_seed)
         rc = st.get("config")
-        pool = E.only_filter(ENVS)
+        pool = E.only_filter(ENVS + ["ffsp"])
         name = pool[rc.randrange(len(pool))]
+        if name == "ffsp":
+            # weak form (DESIGN 5/C05): no enumeration; along seeded episodes every ready job and the documented
+            # wait must be offered at every decision slot
+            cfg = E.sample_cfg("ffsp", rc, "quick")
+            env = E.make_env(cfg)
+            B = rc.choice([1, 2, 3])
+            rows = E.gen_rows(env, cfg, B, st.torch_seed("instances"))
+            return {"cfg": cfg, "instance": E.enc_row(rows[0]), "ffsp_rows": [E.enc_row(r) for r in rows],
+                    "stranger": None, "source": "generator", "limit": LIMIT[tier],
+                    "strategies": [rc.choice(["uniform", "wait_eager", "wait_eager", "lowest"]) for _ in range(B)],
+                    "sample_seed": rc.randrange(1 << 30)}
         cfg = tiny_cfg(name, rc)
         env = E.make_env(cfg)
         two = E.gen_rows(env, cfg, 2, st.torch_seed("instances"))
@@ -218,6 +229,8 @@ class C05:
         cfg = p["cfg"]
         name = cfg["env"]
         row = E.dec_row(p["instance"])
+        if name == "ffsp":
+            return _ffsp_weak(run, cfg, [E.dec_row(r) for r in p["ffsp_rows"]], p["strategies"])
         RR.EXACT = p["source"] == "boundary"
         # generator demands are k/Q: whether a load fills the vehicle exactly is decided in integers, and the
         # property names exactly that case ("load exactly filling the vehicle ... is offered")
@@ -372,3 +385,79 @@ def _is_equality(name, ref, a):
     except Exception:  # noqa: BLE001
         return False
     return False
+
+
+# ----------------------------------------------------------------------------------------------------
+# FFSP, weak form: at every decision slot of seeded episodes the mask offers every ready job of the slot's stage
+# and the wait action wherever the environment documents it (a job still upstream of this stage, or being
+# processed on its way to it).  Hiding the wait there hides every schedule that idles the machine for the
+# arriving job -- on unrelated machines that includes optima.
+# ----------------------------------------------------------------------------------------------------
+def _ffsp_weak(run, cfg, rows, strategies):
+    from ..ref import scheduling as SR
+
+    name = "ffsp"
+    B = len(rows)
+    with run.guard(name, "construct env"):
+        env = E.make_env(cfg)
+    with run.guard(name, "reset", B=B):
+        td = E.reset(env, cfg, rows)
+    refs = [SR.make_ref(name, r, cfg) for r in rows]
+    cap = 6 * max(r.step_bound() for r in refs) + 20
+    t = 0
+    checked = 0
+    while t < cap:
+        done = E.done_vec(td).tolist()
+        if all(done):
+            break
+        acts = []
+        for i in range(B):
+            bits = [bool(x) for x in td["action_mask"][i].reshape(-1).tolist()]
+            opts = D.admitted(td["action_mask"][i])
+            if not opts:
+                run.probe("ffsp_dead_end")  # C02's claim
+                return
+            ref = refs[i]
+            if not done[i] and ref.done() != "must":
+                tm, mi = int(td["time_idx"][i]), int(td["machine_idx"][i])
+                if tm != ref.time or mi != ref.machine() or len(bits) != ref.J + 1:
+                    run.probe("ffsp_slot_out_of_sync")  # slot iteration is C07's ground
+                    return
+                adm = ref.admissible()
+                for j in range(ref.J):
+                    if j in adm and not bits[j]:
+                        run.violate(name, "feasible_action_hidden", f"row {i} slot (time {tm}, machine {mi}): ready job "
+                                    f"{j} of this stage is not offered", constraint="ready_job_hidden", row=i, job=j,
+                                    slot=[tm, mi], cfg=cfg, instance=E.enc_row(rows[i]))
+                        raise StopRun()
+                if ref._wait_documented() and not bits[ref.J]:
+                    run.violate(name, "feasible_action_hidden", f"row {i} slot (time {tm}, machine {mi}): a job is still "
+                                f"upstream of / being processed for this stage, but waiting is not offered (job stages "
+                                f"{list(ref.loc)}, job free at {list(ref.job_free)})", constraint="documented_wait_hidden",
+                                row=i, slot=[tm, mi], cfg=cfg, instance=E.enc_row(rows[i]))
+                    raise StopRun()
+                if ref._wait_documented() and any(j in adm for j in range(ref.J)):
+                    run.probe("ffsp_wait_next_to_ready_job")
+                    run.nontrivial = True
+                checked += 1
+                strat = strategies[i]
+                if strat == "wait_eager" and bits[ref.J] and run.chooser.pick(2, lambda: run.chooser.rng.randrange(2)) == 1:
+                    a = ref.J
+                else:
+                    a = D.choose(run, "uniform" if strat == "wait_eager" else strat, td, i, opts)
+                try:
+                    ref.apply(a)
+                except SR.RefError:
+                    run.probe("ffsp_reference_lost_sync")
+                    return
+            else:
+                a = D.choose(run, "uniform", td, i, opts)
+            acts.append(a)
+        run.log.add("ffsp", t, acts, [D.mask_bits(td["action_mask"][i]) for i in range(B)])
+        run.state(name, tuple(refs[0].loc), refs[0].time)
+        with run.guard(name, "step", B=B, tick=t):
+            td = E.step(env, td, torch.tensor(acts))
+        run.tick()
+        t += 1
+    run.probe("ffsp_weak_form_checked", checked)
+    run.summary = {"ticks": t, "slots_checked": checked}
